@@ -402,7 +402,7 @@ def run_check(c):
             rest = rng.choice([b"", b"", b" ", b",1", b'"', b"}", b"\\", b"x"])
             ln = "jsonp.rs " + hx(out + rest)
             lines2.append(ln)
-            expect[ln] = ("str", unhex(f[1]), len(out))
+            expect[ln] = ("str", unhex(f[1]), len(out), l)
             if len(out) <= 64 or rng.chance(1, 8):
                 m = bytearray(out)
                 k = rng.below(4)
@@ -426,26 +426,26 @@ def run_check(c):
                                (b'"' + out + b'"' + rng.choice([b"", b"x"]), len(out) + 2)):
                 ln = "%s %s" % (rop, hx(form))
                 lines2.append(ln)
-                expect[ln] = ("num", v, used)
+                expect[ln] = ("num", v, used, l)
             # the same text through every other width: accepted iff in range
             for other, ob, osig in (("ru32", 32, False), ("ri32", 32, True), ("ru64", 64, False), ("ri64", 64, True)):
                 lo, hi = (-(1 << (ob - 1)), (1 << (ob - 1)) - 1) if osig else (0, (1 << ob) - 1)
                 for form, used in ((out, len(out)), (b'"' + out + b'"', len(out) + 2)):
                     ln = "jsonp.%s %s" % (other, hx(form))
                     lines2.append(ln)
-                    expect[ln] = ("num", v, used) if lo <= v <= hi else ("rej",)
+                    expect[ln] = ("num", v, used, l) if lo <= v <= hi else ("rej", l)
         elif f[0] in ("jsonp.wf32", "jsonp.wf64") and a.startswith("ok "):
             out = unhex(a.split(" ")[1])
             if out.startswith(b'"'):
                 ln = "jsonp.rf " + hx(out + rng.choice([b"", b" ", b","]))
                 lines2.append(ln)
-                expect[ln] = ("special", {b'"NaN"': "nan", b'"+Inf"': "+inf", b'"-Inf"': "-inf"}.get(out), len(out))
+                expect[ln] = ("special", {b'"NaN"': "nan", b'"+Inf"': "+inf", b'"-Inf"': "-inf"}.get(out), len(out), l)
             elif rng.chance(1, 8 if c.thorough else 3):
                 w = f[0][-2:]
                 for form, used in ((out + rng.choice([b"", b" ", b",", b"}", b"]"]), len(out)), (b'"' + out + b'"', len(out) + 2)):
                     ln = "jsonp.rfn%s %s" % (w, hx(form))
                     lines2.append(ln)
-                    expect[ln] = ("fbits", f[1], used)
+                    expect[ln] = ("fbits", f[1], used, l)
                 if w == "32" and rng.chance(1, 4):      # the float32 text through the float64 reader and back is another value: tie only
                     lines2.append("jsonp.rfn64 " + hx(out))
     n2 = 60000 if c.thorough else 9000
@@ -467,16 +467,18 @@ def run_check(c):
         e = expect.get(l)
         if not e:
             continue
+        src = e[-1]   # the writer case this reader case was derived from: reported as the failing input (it reproduces on its own)
+        via = " [via %s]" % l[:120]
         if e[0] == "str" and a != "ok %s %d" % (hx(e[1]), e[2]):
-            c.oracle_fail(l, "Json2ReadString does not return the written string and stop after it (got %s)" % a[:80], l)
+            c.oracle_fail(src, "Json2ReadString does not return the written string and stop after it (got %s)" % a[:80] + via, src)
         elif e[0] == "num" and a != "ok %d %d" % (e[1], e[2]):
-            c.oracle_fail(l, "integer text written by the writer does not read back as %d (got %s)" % (e[1], a[:60]), l)
+            c.oracle_fail(src, "integer text written by the writer does not read back as %d (got %s)" % (e[1], a[:60]) + via, src)
         elif e[0] == "rej" and a.startswith("ok"):
-            c.oracle_fail(l, "out-of-range integer text accepted (got %s)" % a[:60], l)
+            c.oracle_fail(src, "integer text out of the reader's range is accepted (got %s)" % a[:60] + via, src)
         elif e[0] == "fbits" and a != "ok %s %d" % (e[1], e[2]):
-            c.oracle_fail(l, "finite float text written by the writer does not read back bit-exactly (got %s)" % a[:60], l)
+            c.oracle_fail(src, "finite float text written by the writer does not read back bit-exactly (got %s)" % a[:60] + via, src)
         elif e[0] == "special" and a != "ok %s %d" % (e[1], e[2]):
-            c.oracle_fail(l, "special float string does not read back as %s (got %s)" % (e[1], a[:60]), l)
+            c.oracle_fail(src, "special float string does not read back as %s (got %s)" % (e[1], a[:60]) + via, src)
 
     # ---------------- phase 3: the library pieces the model rebuilds (utf8, utf16, base64) on their own
     lines3 = []
